@@ -3,13 +3,9 @@ Helper lemmas for C13 `result_wellformed`: the token-level JSON parser reads
 back exactly the tree the hand-built writer emitted.
 -/
 import Martian.PostProcess
+import Martian.PostProcessDefs
 
 namespace Martian.PostProcess
-
-/-- tokens a value can start with -/
-def goodHead : Tok → Bool
-  | .null | .lit _ | .str _ | .lbrack | .lbrace => true
-  | _ => false
 
 /-- a value never starts with a closing bracket, a comma or a colon -/
 theorem emit_head (t : J) : ∃ a r, emit t = a :: r ∧ goodHead a = true := by
